@@ -225,14 +225,19 @@ pub fn fresh_conc(args: &[String]) -> i32 {
     };
     let threads: usize = args.get(1).and_then(|s| s.parse().ok()).unwrap_or(8);
     let cases: Arc<Vec<crate::core::Case>> = Arc::new(text.split('\n').filter(|l| !l.is_empty()).filter_map(|l| J::parse(l).ok()).filter_map(|j| crate::core::Case::from_json(&j)).collect());
-    let run_all = |cases: &Vec<crate::core::Case>, y: u64| -> Vec<String> {
-        cases
-            .iter()
-            .map(|c| {
-                let len = c.exprs[0].chars().count();
-                sut::call_with(c.ev, &c.exprs[0], &c.phs[0], sut::c02_budget(len), y).outcome.enc()
-            })
-            .collect()
+    // "rotate": thread t starts t/threads of the way into the list, so that the threads ask for
+    // different members at the same moment (results are reported in list order all the same)
+    let rotate = args.get(2).map(|s| s == "rotate").unwrap_or(false);
+    let run_all = move |cases: &Vec<crate::core::Case>, y: u64, offset: usize| -> Vec<String> {
+        let n = cases.len();
+        let mut out = vec![String::new(); n];
+        for j in 0..n {
+            let i = (j + offset) % n;
+            let c = &cases[i];
+            let len = c.exprs[0].chars().count();
+            out[i] = sut::call_with(c.ev, &c.exprs[0], &c.phs[0], sut::c02_budget(len), y).outcome.enc();
+        }
+        out
     };
     let barrier = Arc::new(Barrier::new(threads));
     let mut hs = vec![];
@@ -241,7 +246,7 @@ pub fn fresh_conc(args: &[String]) -> i32 {
         let h = std::thread::Builder::new().stack_size(8 * 1024 * 1024 + 256 * 1024).spawn(move || {
             sut::install_hook();
             barrier.wait();
-            run_all(&cases, if t % 2 == 0 { 0 } else { 1 + t as u64 % 5 })
+            run_all(&cases, if t % 2 == 0 { 0 } else { 1 + t as u64 % 5 }, if rotate { t * cases.len() / threads } else { 0 })
         });
         match h {
             Ok(h) => hs.push(h),
@@ -256,7 +261,7 @@ pub fn fresh_conc(args: &[String]) -> i32 {
         }
     }
     let cases2 = cases.clone();
-    let after = match std::thread::Builder::new().stack_size(8 * 1024 * 1024 + 256 * 1024).spawn(move || run_all(&cases2, 0)).map(|h| h.join()) {
+    let after = match std::thread::Builder::new().stack_size(8 * 1024 * 1024 + 256 * 1024).spawn(move || run_all(&cases2, 0, 0)).map(|h| h.join()) {
         Ok(Ok(v)) => v,
         _ => return 1,
     };
